@@ -101,7 +101,13 @@ impl AffineRepr for AffinePoint {
     type Group = Element;
 
     fn xy(&self) -> Option<(&Self::BaseField, &Self::BaseField)> {
-        self.inner.xy()
+        // Both (0, 1) and (0, -1) represent the identity element, which has no
+        // coordinates (`is_zero` is defined through this method).
+        if self.inner.x == Fq::ZERO {
+            None
+        } else {
+            self.inner.xy()
+        }
     }
 
     fn zero() -> Self {
